@@ -933,6 +933,9 @@ G10_MAINS = {
     # a module namespace whose module is a top-level one that nothing has imported yet (dropped from sys.modules first)
     "module-toplevel": ('<%namespace name="m" module="c07_topmod"/>[${m.pub("a")}]', "[Pa]"),
     "module-toplevel-star-underscore": ('<%namespace module="c07_topmod" import="*, _fmt"/>[${pub("a")}${_fmt("b")}]', "[PaFb]"),
+    # a def of an INHERITING page rendered on its own (get_def): `local` is the page, relative URIs resolve next to it
+    "getdef-of-inheriting-page": ("[${context.lookup.get_template('/d/inhpage.html').get_def('pd').render()}]", "[PAGE-PART|/d/inhpage.html|P]"),
+    "getdef-of-inheriting-page-unicode": ("[${context.lookup.get_template('/d/inhpage.html').get_def('pd').render_unicode()}]", "[PAGE-PART|/d/inhpage.html|P]"),
     "star-attr-probe": ('<%namespace name="q" file="lib.html"/>[${hasattr(q, "extra")}${hasattr(q, "more")}${sorted(k for k in ("libdef", "other", "extra", "more", "lb") if hasattr(q, k))}]', "[FalseFalse['lb', 'libdef', 'other']]"),
 }
 
@@ -966,6 +969,8 @@ def g10_execute(c):
     from mako.lookup import TemplateLookup
 
     files = {"/d/lib.html": G10_LIB, "/d/lib2.html": '<%def name="two()">2</%def>', "/d/inh.html": '<%inherit file="ibase2.html"/>I',
+             "/l/layout.html": '<%def name="who()">L</%def>L(${next.body()})', "/l/part.html": "LAYOUT-PART", "/d/part.html": "PAGE-PART",
+             "/d/inhpage.html": '<%inherit file="/l/layout.html"/><%def name="who()">P</%def><%def name="pd()">${local.get_template("part.html").render()}|${local.uri}|${local.who()}</%def>body',
              "/d/libinh.html": '<%inherit file="libbase.html"/><%def name="own()">W</%def>', "/d/libbase.html": '<%def name="based()">Q</%def>${next.body()}',
              "/d/ibase2.html": "<%page args=\"pc='dflt'\"/>B(${pc}|${next.body()})", "/d/ibase.html": '<%namespace name="q" file="lib.html" inheritable="True"/>${next.body()}'}
     for k, (src, _e) in G10_MAINS.items():
